@@ -132,9 +132,12 @@ m = {
     "version": 1,
     "setup_cmd": "./bin/setup",
     "hooks": {"guard": "evalexpr_verif",
-              "enable": "no source hooks: the public API exposes the whole abstract state; the guard name is reserved and unused",
+              "enable": "RUSTFLAGS='--cfg evalexpr_verif' RUSTDOCFLAGS='--cfg evalexpr_verif' CARGO_TARGET_DIR=/verif/out/target-repo-hooks "
+                        "EVALEXPR_VERIF_TRACE=<file> cargo test --offline --workspace (cwd /repo; lib/vf.py:record_repo_tests): the "
+                        "repository's own tests run with the hooks on and every top-level precompilation / evaluation they perform is "
+                        "recorded and validated against Trace_Api.tla (DESIGN.md 11.7).  All other checks use the public API only.",
               "baseline_off_cmd": "cd /repo && cargo test --workspace --no-fail-fast --offline",
-              "source_commits": [], "add_only": True},
+              "source_commits": ["7f14cb9"], "add_only": True},
     "engines": [{"name": "tlc+harness", "path": "/verif/bin/check",
                  "serves_properties": [c["property_id"] for c in checks],
                  "kind_free_text": "explicit TLA+ specification (spec/*.tla) model-checked by TLC; every explored case is "
